@@ -60,6 +60,19 @@ fn replay(args: &Args) {
             r2.run_op(&mut w, &mut rec, &a, &mut ctr);
         }
     }
+    // position cuts: every (market, position side, collateral side, liquidate | ADL, swap ok | swap fails)
+    for m in ["M1", "M3", "M2"] {
+        for a in 0..4u64 {
+            for (is_long, col_long) in [(true, false), (false, true), (true, true), (false, false)] {
+                let mut w = base.clone();
+                let mut ctr = 5000u64;
+                rec.reset = true;
+                rec.step = "cut_scenario".into();
+                let o = AbsOp { op: "cut_scenario".into(), m: mi(&r2, m), side_long: is_long, a, user: 0, tok_out: if col_long { Some(0) } else { None }, ..Default::default() };
+                r2.run_op(&mut w, &mut rec, &o, &mut ctr);
+            }
+        }
+    }
     let out = json!({"scripts": scripts, "instructions": rec.instructions, "ok_instructions": rec.ok_instructions, "hops": rec.hops_seen, "classes": rec.classes});
     let n = sink.finish();
     println!("{}", json!({"events": n, "stats": out}));
